@@ -14,7 +14,7 @@ REQUIRED = ['contours_first', 'yields_from_block', 'frontier', 'block_is_first_c
             'dilate_erode_subset', 'hatch_region_inside', 'level_within', 'hatch_line_within', 'coverage']
 RULE = ('Blocks: rectangles, discs, slivers 0.5..12 floor spacings wide, wedges, L / U / C / H shapes, dumbbells and three-pad chains '
         'whose necks vanish when inset, two pads joined by a neck with a dip in one pad, exactly square envelopes with a dip in the '
-        'top / bottom / side edge, all rotated by 0 / 90 degrees, and real blocks dug by TrenchColumn from coupler / S-bend layouts; '
+        'top / bottom / side edge, thin rounded wedges whose first inset splits, all rotated by 0 / 90 degrees, and real blocks dug by TrenchColumn from coupler / S-bend layouts; '
         'floor spacing 0.0005..0.01, 2..8 safe turns.  The real Trench.toolpath() runs with Trench.buffer_polygon wrapped by the '
         'harness to record the actual inset tree; the Lean model (c07.toolpath) replays the queue on that tree: the observed '
         'sequence must be the model\'s (contour rings equal to the exterior of the model\'s polygon, in its order; then one hatching '
@@ -90,6 +90,10 @@ def make_shape(kind, par, rot):
         else:
             cut = geometry.Polygon([(0, a / 2 - wd / 2), (0, a / 2 + wd / 2), (depth, a / 2)])
         p = sq.difference(cut)
+    elif kind == 'rwedge':   # a thin wedge with rounded corners: its first inset splits off the tip, hatch line 0 lies on the edge
+        p = geometry.Polygon([(0, 0), (par['a'], 0), (par['a'], par['b']), (0, par['c'])]).buffer(par['r'], quad_segs=64)
+    elif kind == 'rrect':    # rounded rectangle whose corner radius is about one spacing: the inset leaves degenerate corner pieces
+        p = geometry.box(0, 0, par['a'], par['b']).buffer(par['r'], quad_segs=256).simplify(5e-7)
     elif kind == 'dug':
         p = dug_block(par)
     else:
@@ -124,7 +128,7 @@ def dug_block(par):
 def gen_case(rng):
     d = rng.choice([0.0005, 0.001, 0.002, 0.005, 0.01])
     turns = rng.choice([2, 2, 3, 5, 8])
-    kind = rng.choice(['rect', 'disc', 'sliver', 'wedge', 'L', 'U', 'C', 'H', 'dumbbell', 'pads3', 'lobes', 'square_dip', 'dug', 'dug'])
+    kind = rng.choice(['rect', 'disc', 'sliver', 'wedge', 'L', 'U', 'C', 'H', 'dumbbell', 'pads3', 'lobes', 'square_dip', 'rwedge', 'rrect', 'rrect', 'dug', 'dug'])
     u = rng.uniform
     if kind == 'rect':
         par = {'a': round(u(0.03, 0.6), 4), 'b': round(u(0.03, 0.4), 4)}
@@ -141,6 +145,12 @@ def gen_case(rng):
         par = {'a': round(u(0.03, 0.12), 4), 'b': round(d * u(1, 10), 5), 'c': round(u(0.1, 0.3), 4)}
         if kind == 'pads3':
             par['c'] = round(2 * par['a'] + u(0.02, 0.1), 4)
+    elif kind == 'rrect':
+        par = {'a': round(u(0.2, 0.6), 3), 'b': round(u(0.05, 0.2), 3), 'r': round(d * rng.choice([1.0, 1.0, 0.5, 2.0]), 5)}
+        turns = rng.choice([2, 2, 3])
+    elif kind == 'rwedge':
+        par = {'a': round(u(0.3, 0.8), 3), 'b': round(d * u(6, 30), 5), 'c': round(d * u(0.5, 4), 5), 'r': rng.choice([0.01, 0.005])}
+        turns = rng.choice([2, 2, 3])
     elif kind == 'lobes':
         d = rng.choice([0.008, 0.01])
         par = {'a': rng.choice([0.03, 0.04, 0.05]), 'b': 0.06}
@@ -238,7 +248,7 @@ def check_case(ctx, case, nsample=3000):
     drawn = []
     for i, o in objs.items():
         if not o.is_empty:
-            inter = o.buffer(1.05 * d).intersection(mask)
+            inter = o.buffer(1.05 * d).intersection(block).intersection(mask)
             if any(g.geom_type == 'LineString' and not g.is_empty for g in getattr(inter, 'geoms', [inter])):
                 drawn.append(i)
     req = {'op': 'c07.toolpath', 'tree': tree(0), 'n': n, 'drawn': drawn, 'w': q(w), 'h': q(h), 'd': q(d)}
@@ -301,7 +311,7 @@ def check_case(ctx, case, nsample=3000):
             k, slen, far = stray_at
             sig = 'inside'
             if on_model and k < len(m['yields']) and m['yields'][k][0] == 'h':
-                region = objs[m['yields'][k][1]].buffer(1.05 * d)
+                region = objs[m['yields'][k][1]].buffer(1.05 * d).intersection(block)
                 # the hatched region itself is inside the block: only the straight joins between clipped hatch pieces stray
                 sig = 'inside:hatch-join-across-concavity' if roomy.covers(region) else 'inside:hatch-region'
             ctx.fail('spec', 'inside', {**info, 'index': k, 'of': len(lines), 'outside_length': slen, 'distance': far},
@@ -324,9 +334,9 @@ def check_case(ctx, case, nsample=3000):
                     return False
             else:
                 # the vertices of a hatching are the ends of the mask lines clipped to the grown polygon
-                own = o.buffer(1.05 * d).intersection(mask)
+                own = o.buffer(1.05 * d).intersection(block).intersection(mask)
                 nown = sum(len(g.coords) for g in getattr(own, 'geoms', [own]) if g.geom_type == 'LineString' and not g.is_empty)
-                vfar = float(np.max(shapely.distance(o.buffer(1.05 * d), shapely.points(a.T))))
+                vfar = float(np.max(shapely.distance(o.buffer(1.05 * d).intersection(block), shapely.points(a.T))))
                 if vfar > 1e-6 or a.shape[1] != nown:
                     ctx.fail('corr', 'sequence', {**info, 'index': k, 'model_polygon': sid}, f'polyline {k} is not the hatching of the polygon the model hatches at that place', 'sequence:hatch')
                     return False
@@ -343,11 +353,24 @@ def check_case(ctx, case, nsample=3000):
     return req, judge
 
 
+# minimised past failures, run first on every tier
+CORPUS = [
+    # the first inset of a rectangle rounded with radius = spacing leaves a zero-area corner piece; hatched, it reached 0.05 spacings
+    # beyond the block until the hatching was clipped to the block (repo 4a67208)
+    {'kind': 'rrect', 'par': {'a': 0.5, 'b': 0.1, 'r': 0.005, 'd': 0.005}, 'd': 0.005, 'turns': 2, 'rot': 0},
+    {'kind': 'rrect', 'par': {'a': 0.5, 'b': 0.1, 'r': 0.005, 'd': 0.005}, 'd': 0.005, 'turns': 2, 'rot': 90},
+    # crashes repaired in repo 6ad7514 / 0f937b9
+    {'kind': 'dumbbell', 'par': {'a': 0.1, 'b': 0.003, 'c': 0.2, 'd': 0.001}, 'd': 0.001, 'turns': 8, 'rot': 0},
+    {'kind': 'sliver', 'par': {'a': 0.5737, 'b': 0.00601, 'd': 0.005}, 'd': 0.005, 'turns': 8, 'rot': 0},
+]
+
+
 def run(ctx):
     rng = ctx.rng
     jobs, reqs = [], []
-    for i in range(ctx.n(140, 1600)):
-        case = gen_case(rng)
+    n = ctx.n(140, 1600)
+    for i in range(n + len(CORPUS)):
+        case = dict(CORPUS[i]) if i < len(CORPUS) else gen_case(rng)
         case['pseed'] = rng.randrange(1 << 30)
         r = check_case(ctx, case, nsample=ctx.n(2500, 6000))
         if r is None:
